@@ -1,8 +1,26 @@
+//! Engines for the iso-literal family (C07, C32) against the real crates:
+//!   iso.lex      <hex text>            -> the logos token stream (kind:start:end,...,eof:s:e)
+//!   iso.parse    <hex text> <0|1>      -> ok <tree with every span> <semantic tokens> | diag <kind> <span> | panic
+//!   iso.resolve  <hex text>            -> noparse | tree <generic span tree (hook)> <run-compressed chains for EVERY offset>
+//! Select the generator with HX_ENGINE = isolex | isoparse | resolve.
+use common_lang_types::{Location, Span, TextSource, WithEmbeddedLocation, WithGenericLocation};
 use hx_common::*;
-use isograph_lang_parser::IsographLangTokenKind;
+use intern::string_key::Intern;
+use isograph_lang_parser::{
+    parse_iso_literal, verif_dump_tree, verif_resolve_chain, IsoLiteralExtractionResult,
+    IsographLangTokenKind, VerifNode,
+};
+use isograph_lang_types::{
+    ConstantValue, IsographFieldDirective, IsographSemanticToken, LineBehavior, NonConstantValue,
+    ObjectSelectionDirectiveSet, ScalarSelectionDirectiveSet, Selection, SelectionFieldArgument,
+    SelectionSet, SelectionType, TypeAnnotationDeclaration, UnionVariant, VariableDeclaration,
+};
 use logos::Logos;
 use std::panic::{catch_unwind, AssertUnwindSafe};
 
+mod gen;
+
+// ------------------------------------------------------------------------------------------ lex
 fn run_lex(f: &[&str]) -> String {
     let text = String::from_utf8(unhex(f[1]).unwrap()).unwrap();
     match catch_unwind(AssertUnwindSafe(|| {
@@ -19,9 +37,361 @@ fn run_lex(f: &[&str]) -> String {
     }
 }
 
+// ------------------------------------------------------------------------------------------ dump
+fn sp(s: Span) -> String {
+    format!("@{}:{}", s.start, s.end)
+}
+fn at<T>(w: &WithEmbeddedLocation<T>) -> String {
+    sp(w.location.span)
+}
+fn list(items: Vec<String>) -> String {
+    format!("[{}]", items.join(";"))
+}
+
+fn value(v: &NonConstantValue) -> String {
+    match v {
+        NonConstantValue::Variable(n) => format!("${}", n),
+        NonConstantValue::Integer(i) => format!("i{}", i),
+        NonConstantValue::Boolean(b) => format!("b{}", b),
+        NonConstantValue::String(s) => format!("s{}", hex(s.to_string().as_bytes())),
+        NonConstantValue::Null => "n".to_string(),
+        NonConstantValue::Object(o) => format!(
+            "{{{}}}",
+            o.iter()
+                .map(|p| format!("{}{}:{}{}", p.name.item, at(&p.name), value(&p.value.item), at(&p.value)))
+                .collect::<Vec<_>>()
+                .join(";")
+        ),
+        NonConstantValue::Float(_) => "?float".to_string(),
+        NonConstantValue::Enum(_) => "?enum".to_string(),
+        NonConstantValue::List(_) => "?list".to_string(),
+    }
+}
+
+fn args(a: &[WithEmbeddedLocation<SelectionFieldArgument>]) -> String {
+    list(
+        a.iter()
+            .map(|x| {
+                format!(
+                    "A({}{},{}{}){}",
+                    x.item.name.item,
+                    at(&x.item.name),
+                    value(&x.item.value.item),
+                    at(&x.item.value),
+                    at(x)
+                )
+            })
+            .collect(),
+    )
+}
+
+fn dirs(d: &WithEmbeddedLocation<Vec<WithEmbeddedLocation<IsographFieldDirective>>>) -> String {
+    format!(
+        "{}{}",
+        list(
+            d.item
+                .iter()
+                .map(|x| format!("D({}{},{}){}", x.item.name.item, at(&x.item.name), args(&x.item.arguments), at(x)))
+                .collect()
+        ),
+        at(d)
+    )
+}
+
+fn ty(t: &TypeAnnotationDeclaration) -> String {
+    match t {
+        TypeAnnotationDeclaration::Scalar(n) => format!("{}!", n),
+        TypeAnnotationDeclaration::Plural(inner) => format!("[{}{}]!", ty(&inner.item), at(inner)),
+        TypeAnnotationDeclaration::Union(u) => {
+            if u.nullable && u.variants.len() == 1 {
+                match u.variants.iter().next().unwrap() {
+                    UnionVariant::Scalar(n) => format!("{}", n),
+                    UnionVariant::Plural(inner) => format!("[{}{}]", ty(&inner.item), at(inner)),
+                }
+            } else {
+                "?union".to_string()
+            }
+        }
+    }
+}
+
+fn vars(v: &[WithEmbeddedLocation<VariableDeclaration>]) -> String {
+    list(
+        v.iter()
+            .map(|x| {
+                let def = match &x.item.default_value {
+                    None => "-".to_string(),
+                    Some(d) => {
+                        let c: ConstantValue = d.item.clone();
+                        let nc: NonConstantValue = c.into();
+                        format!("{}{}", value(&nc), sp(d.location.span))
+                    }
+                };
+                format!(
+                    "V({}{},{}{},{}){}",
+                    x.item.name.item,
+                    sp(x.item.name.location.span),
+                    ty(&x.item.type_.item),
+                    sp(x.item.type_.location.span),
+                    def,
+                    at(x)
+                )
+            })
+            .collect(),
+    )
+}
+
+fn desc<T: std::fmt::Display>(d: &Option<WithEmbeddedLocation<T>>) -> String {
+    match d {
+        None => "-".to_string(),
+        Some(d) => format!("d{}{}", hex(d.item.to_string().as_bytes()), at(d)),
+    }
+}
+
+fn alias<T: std::fmt::Display>(a: &Option<WithEmbeddedLocation<T>>) -> String {
+    match a {
+        None => "-".to_string(),
+        Some(a) => format!("{}{}", a.item, at(a)),
+    }
+}
+
+fn selset(s: &WithEmbeddedLocation<SelectionSet>) -> String {
+    format!(
+        "{{{}}}{}",
+        s.item.selections.iter().map(selection).collect::<Vec<_>>().join(";"),
+        at(s)
+    )
+}
+
+fn selection(s: &WithEmbeddedLocation<Selection>) -> String {
+    match &s.item {
+        SelectionType::Scalar(x) => format!(
+            "S({},{}{},{},{}){}",
+            alias(&x.reader_alias),
+            x.name.item,
+            at(&x.name),
+            args(&x.arguments),
+            match x.scalar_selection_directive_set {
+                ScalarSelectionDirectiveSet::None(_) => "none".to_string(),
+                ScalarSelectionDirectiveSet::Updatable(_) => "updatable".to_string(),
+                ScalarSelectionDirectiveSet::Loadable(l) => format!("loadable:{}", l.loadable.lazy_load_artifact),
+            },
+            at(s)
+        ),
+        SelectionType::Object(x) => format!(
+            "O({},{}{},{},{},{}){}",
+            alias(&x.reader_alias),
+            x.name.item,
+            at(&x.name),
+            args(&x.arguments),
+            match x.object_selection_directive_set {
+                ObjectSelectionDirectiveSet::None(_) => "none",
+                ObjectSelectionDirectiveSet::Updatable(_) => "updatable",
+            },
+            selset(&x.selection_set),
+            at(s)
+        ),
+    }
+}
+
+fn sem_token(t: &IsographSemanticToken) -> String {
+    let lb = match t.line_behavior {
+        LineBehavior::StartsNewLine(b) => format!("N{}", b.space_after.0 as u8),
+        LineBehavior::EndsLine(b) => format!("E{}", b.space_before.0 as u8),
+        LineBehavior::Inline(b) => format!("I{}{}", b.space_before.0 as u8, b.space_after.0 as u8),
+        LineBehavior::IsOwnLine => "O".to_string(),
+        LineBehavior::Remove => "R".to_string(),
+    };
+    let ind = match t.indent_change {
+        isograph_lang_types::semantic_token_legend::IndentChange::Indent => "+",
+        isograph_lang_types::semantic_token_legend::IndentChange::Dedent => "-",
+        isograph_lang_types::semantic_token_legend::IndentChange::Same => "=",
+    };
+    format!("{}{}{}", t.lsp_semantic_token.0, lb, ind)
+}
+
+fn dump(r: &IsoLiteralExtractionResult) -> String {
+    let tree = match r {
+        IsoLiteralExtractionResult::ClientFieldDeclaration(d) => {
+            let i = &d.item;
+            format!(
+                "F({}{},{}{},{},{},{},{},{}){}",
+                i.parent_type.item,
+                at(&i.parent_type),
+                i.client_field_name.item,
+                at(&i.client_field_name),
+                vars(&i.variable_definitions),
+                dirs(&i.directive_set),
+                desc(&i.description),
+                selset(&i.selection_set),
+                i.const_export_name,
+                at(d)
+            )
+        }
+        IsoLiteralExtractionResult::ClientPointerDeclaration(d) => {
+            let i = &d.item;
+            format!(
+                "P({}{},{}{},{},{}{},{},{},{},{}){}",
+                i.parent_type.item,
+                at(&i.parent_type),
+                i.client_pointer_name.item,
+                at(&i.client_pointer_name),
+                vars(&i.variable_definitions),
+                ty(&i.target_type.item),
+                at(&i.target_type),
+                dirs(&i.directives),
+                desc(&i.description),
+                selset(&i.selection_set),
+                i.const_export_name,
+                at(d)
+            )
+        }
+        IsoLiteralExtractionResult::EntrypointDeclaration(d) => {
+            let i = &d.item;
+            format!(
+                "E({}{},{}{},kw{},dot{},{}){}",
+                i.parent_type.item,
+                at(&i.parent_type),
+                i.client_field_name.item,
+                at(&i.client_field_name),
+                at(&i.entrypoint_keyword),
+                at(&i.dot),
+                dirs(&i.directive_set),
+                at(d)
+            )
+        }
+    };
+    let toks: Vec<String> = r
+        .semantic_tokens()
+        .iter()
+        .map(|t: &WithGenericLocation<IsographSemanticToken, _>| format!("{}{}", sem_token(&t.item), sp(t.location.span)))
+        .collect();
+    format!("{}\t{}", tree, if toks.is_empty() { "-".to_string() } else { toks.join(";") })
+}
+
+/// Diagnostic kinds by message prefix (wording is not compared).
+fn diag_kind(m: &str) -> &'static str {
+    const TABLE: &[(&str, &str)] = &[
+        ("Isograph literals must start", "start"),
+        ("Leftover tokens remaining", "leftover"),
+        ("Selection sets are required", "selset"),
+        ("This isograph", "export"),
+        ("Expected the keyword `to`", "to"),
+        ("Expected a line break", "linebreak"),
+        ("Expected comma or line break", "sep"),
+        ("Unexpectedly found a period", "spread"),
+        ("Expected a valid integer", "int"),
+        ("Expected null or a boolean", "bool"),
+        ("Expected a valid value", "value"),
+        ("Found a variable", "const"),
+        ("Expected a type", "type"),
+        ("Error when deserializing", "directive"),
+    ];
+    for (p, k) in TABLE {
+        if m.starts_with(p) {
+            return k;
+        }
+    }
+    if m.starts_with("Expected ") && m.contains(", but found ") {
+        return "tok";
+    }
+    "unknown"
+}
+
+fn parse(text: &str, export: bool) -> Result<IsoLiteralExtractionResult, common_lang_types::Diagnostic> {
+    let ts = TextSource { relative_path_to_source_file: "f.ts".intern().into(), span: None };
+    parse_iso_literal(
+        text.to_string(),
+        "f.ts".intern().into(),
+        if export { Some("x".to_string()) } else { None },
+        ts,
+    )
+}
+
+fn run_parse(f: &[&str]) -> String {
+    let text = String::from_utf8(unhex(f[1]).unwrap()).unwrap();
+    let export = f[2] == "1";
+    match catch_unwind(AssertUnwindSafe(|| match parse(&text, export) {
+        Ok(r) => format!("ok\t{}", dump(&r)),
+        Err(d) => {
+            let loc = match d.0.location {
+                None => "none".to_string(),
+                Some(Location::Generated) => "gen".to_string(),
+                Some(Location::Embedded(e)) => format!("{}:{}", e.span.start, e.span.end),
+            };
+            format!("diag\t{}\t{}", diag_kind(&d.0.message), loc)
+        }
+    })) {
+        Ok(s) => s,
+        Err(_) => "panic".to_string(),
+    }
+}
+
+// ------------------------------------------------------------------------------------------ resolve
+fn dump_generic(n: &VerifNode, out: &mut String, index: &mut Vec<(&'static str, usize, Span)>) {
+    index.push((n.kind, n.addr, n.span));
+    out.push_str(&format!("{}@{}:{}", n.kind, n.span.start, n.span.end));
+    if !n.children.is_empty() {
+        out.push('(');
+        for (i, c) in n.children.iter().enumerate() {
+            if i > 0 {
+                out.push(',');
+            }
+            dump_generic(c, out, index);
+        }
+        out.push(')');
+    }
+}
+
+fn run_resolve(f: &[&str]) -> String {
+    let text = String::from_utf8(unhex(f[1]).unwrap()).unwrap();
+    match catch_unwind(AssertUnwindSafe(|| match parse(&text, true) {
+        Err(_) => "noparse".to_string(),
+        Ok(r) => {
+            let tree = verif_dump_tree(&r);
+            let mut s = String::new();
+            let mut index = vec![];
+            dump_generic(&tree, &mut s, &mut index);
+            let mut runs: Vec<(usize, usize, String)> = vec![];
+            for o in 0..=text.len() {
+                let chain = verif_resolve_chain(&r, o as u32)
+                    .iter()
+                    .map(|(k, a)| match index.iter().find(|(k2, a2, _)| k2 == k && a2 == a) {
+                        Some((_, _, span)) => format!("{}@{}:{}", k, span.start, span.end),
+                        None => format!("{}@?", k),
+                    })
+                    .collect::<Vec<_>>()
+                    .join(">");
+                match runs.last_mut() {
+                    Some((_, hi, c)) if *c == chain => *hi = o,
+                    _ => runs.push((o, o, chain)),
+                }
+            }
+            let runs: Vec<String> = runs.iter().map(|(a, b, c)| format!("{}-{}={}", a, b, c)).collect();
+            format!("tree\t{}\t{}", s, runs.join(";"))
+        }
+    })) {
+        Ok(s) => s,
+        Err(_) => "panic".to_string(),
+    }
+}
+
 fn main() {
-    main_loop(&|_r, _i| vec![], &mut |f| match f[0] {
-        "iso.lex" => run_lex(f),
-        _ => "bad-op".to_string(),
-    });
+    let which = std::env::var("HX_ENGINE").unwrap_or_default();
+    main_loop(
+        &|r, _i| match which.as_str() {
+            "isolex" => vec![format!("iso.lex\t{}", hex(gen::gen_lex_text(r).as_bytes()))],
+            "resolve" => vec![format!("iso.resolve\t{}", hex(gen::gen_resolve_text(r).as_bytes()))],
+            _ => {
+                let (text, export) = gen::gen_parse_case(r);
+                vec![format!("iso.parse\t{}\t{}", hex(text.as_bytes()), if export { 1 } else { 0 })]
+            }
+        },
+        &mut |f| match f[0] {
+            "iso.lex" => run_lex(f),
+            "iso.parse" => run_parse(f),
+            "iso.resolve" => run_resolve(f),
+            _ => "bad-op".to_string(),
+        },
+    );
 }
